@@ -668,6 +668,9 @@ func TestCheck(t *testing.T) {
 					if i%3 == 2 && i%2 == 0 {
 						mode = fmt.Sprint("relock-after-late-renewal-answer/", 1+i%4/2)
 						o = locktap.RelockAfterLateRenewalAnswer(L, 1+i%4/2, []time.Duration{L / 20, L / 5}[i%4/2])
+					} else if i%6 == 1 {
+						mode = "relock-behind-slow-delete-answer"
+						o = locktap.RelockBehindSlowDeleteAnswer(L)
 					} else if i%3 == 2 {
 						mode = fmt.Sprint("relock-during-slow-renewal/", 1+i%2)
 						o = locktap.RelockDuringSlowRenewal(L, 1+i%2)
@@ -693,6 +696,21 @@ func TestCheck(t *testing.T) {
 						run.Violation("lock/two-holders", "real clock: "+o.What, map[string]any{"mode": mode, "lease": L.String()})
 					}
 					return
+				}
+			}(i)
+		}
+		// a lease longer than the package default: the record lives one lease of its own provider
+		for i := 0; i < run.Pick(1, 3); i++ {
+			twg.Add(1)
+			go func(i int) {
+				defer twg.Done()
+				L := []time.Duration{24 * time.Second, 40 * time.Second, 90 * time.Second}[i]
+				o := locktap.LongLeaseTenure(L, []time.Duration{11500 * time.Millisecond, 19 * time.Second, 44 * time.Second}[i])
+				run.Eval(1)
+				run.Add("long_lease_tenures", 1)
+				run.DistinctStr(fmt.Sprint("long-lease-tenure", L))
+				if o.Sig != "" {
+					run.Violation("lock/two-holders", "real clock: "+o.What, map[string]any{"mode": "long-lease-tenure", "lease": L.String()})
 				}
 			}(i)
 		}
